@@ -54,6 +54,7 @@ type Item struct {
 	Codes1  int                 `json:"codes1,omitempty"`
 	Inbox   map[string][]string `json:"inbox,omitempty"`   // relay: messages received per User-Agent number
 	Attempt map[string]string   `json:"attempt,omitempty"` // relay: UA -> plan label
+	Note    map[string]string   `json:"note,omitempty"`    // relay / binary: UA -> booking id of the connection (for waiting after a deny)
 	Disc    bool                `json:"discarded,omitempty"`
 }
 
@@ -345,6 +346,10 @@ func (b *inbox) has(ua int, msg string) bool {
 func runRelay(it *Item, e *acc.Env, try int) bool {
 	c := it.H
 	rn := acc.NewRunner(e, c.Name+"-"+strconv.Itoa(try))
+	for ua, bk := range it.Note {
+		n, _ := strconv.Atoi(ua)
+		rn.NoteBooking(n, bk)
+	}
 	box := &inbox{got: map[int][]string{}}
 	started := map[int]bool{}
 	rn.AfterOp = func(orig int, o *acc.Op, out *acc.Out) {
@@ -623,6 +628,22 @@ func work(a lib.Args) {
 		}
 	}
 
+	// the binary part runs beside everything else (its own processes, its own clocks)
+	type binOut struct {
+		rs  []binResult
+		err error
+	}
+	binCh := make(chan binOut, 1)
+	replayBinary := a.Replay != "" && len(items) == 1 && items[0].Kind == "binary"
+	if a.Replay == "" || replayBinary {
+		go func() {
+			rs, err := runBinaryPart()
+			binCh <- binOut{rs, err}
+		}()
+		if replayBinary {
+			items = nil
+		}
+	}
 	// session stream: sequential on the harness clock
 	for i := range items {
 		it := &items[i]
@@ -711,9 +732,30 @@ func work(a lib.Args) {
 		it.Top = crossbar.VerifAccessTopicOfPath(it.Sl)
 	}
 
+	var binResults map[int]binResult
+	if a.Replay == "" || replayBinary {
+		bo := <-binCh
+		binResults = map[int]binResult{}
+		if bo.err != nil {
+			res.Violate(lib.Violation{Clause: "configuration-not-honoured", Case: -1, Key: "binary:build", Replay: map[string]string{"kind": "binary"},
+				Detail: "the relay binary could not be built from the tree under test: " + bo.err.Error()})
+		}
+		for _, br := range bo.rs {
+			if br.err != nil {
+				res.Violate(lib.Violation{Clause: "configuration-not-honoured", Case: -1, Key: "binary:start", Replay: Item{Kind: "binary"},
+					Detail: "binary part: " + br.err.Error()})
+				for _, f := range br.finds {
+					res.Violate(lib.Violation{Clause: f.clause, Case: -1, Key: f.key, Replay: Item{Kind: "binary"}, Detail: f.detail})
+				}
+				continue
+			}
+			binResults[len(items)] = br
+			items = append(items, br.item)
+		}
+	}
 	var coq []string
 	kept := 0
-	for _, it := range items {
+	for i, it := range items {
 		if it.Disc {
 			res.Count("discarded:clock-tick")
 			continue
@@ -763,6 +805,20 @@ func work(a lib.Args) {
 					if o.Req.Label == "step-repeat" {
 						res.Count("hist-step:exact-repeat")
 					}
+				}
+			}
+		case "binary":
+			br := binResults[i]
+			br.item = it
+			oracleBinary(br, kept, res)
+			res.Count("binary:instances")
+			res.CountN("binary:operations", len(it.H.Ops))
+			for k, o := range it.H.Ops {
+				if o.K == "ws" {
+					res.Count("binary-ws:" + o.Ws.Label + "=" + it.H.Outs[k].Ws)
+				}
+				if o.K == "req" {
+					res.Count("binary-req:" + o.Req.Route + ":" + o.Req.Auth.Label + "=" + strconv.Itoa(it.H.Outs[k].Status))
 				}
 			}
 		case "relay":
